@@ -66,6 +66,13 @@ func (w *workingState[S, T]) Rebase(
 
 	var invalidated []T
 
+	// The transactions that still apply, in order, on the new base.
+	// This is tracked by position, not through the txDeleter:
+	// the deleter only sees transaction values,
+	// so it would also drop a still-valid duplicate of an invalidated transaction
+	// while curState keeps that duplicate's effect.
+	kept := make([]T, 0, len(w.Txs))
+
 	for _, tx := range w.Txs {
 		newState, err := w.addTx(ctx, w.curState, tx)
 		if err != nil {
@@ -84,12 +91,14 @@ func (w *workingState[S, T]) Rebase(
 		// We have new state from successfully applying this transaction.
 		w.curState = newState
 		w.isUpdated = true
+		kept = append(kept, tx)
 	}
 
 	// All transactions were applied or invalidated.
-	// Prune the invalidated transactions, if any exist.
+	// Keep exactly the ones that applied.
 	if len(invalidated) > 0 {
-		w.Txs = slices.DeleteFunc(w.Txs, w.txDeleter(ctx, invalidated))
+		clear(w.Txs) // Don't retain references to pruned transactions.
+		w.Txs = kept
 	}
 
 	return rebaseResponse[T]{Invalidated: invalidated}
